@@ -552,14 +552,9 @@ impl<T: Clone + Eq + Debug + Default> WrappedBlock<T> {
         let mut tmp_line = TaggedLine::new();
         mem::swap(&mut tmp_line, &mut self.line);
         if self.pad_blocks {
-            let tmp_tag;
-            let tag = if let Some(st) = self.spacetag.as_ref() {
-                st
-            } else {
-                tmp_tag = Default::default();
-                &tmp_tag
-            };
-            tmp_line.pad_to(self.width, tag);
+            // The padding is not part of any inline element, so it doesn't
+            // take the tag of whitespace dropped at the end of the line.
+            tmp_line.pad_to(self.width, &Default::default());
         }
         self.text.push(tmp_line);
     }
